@@ -612,4 +612,67 @@ func TestC14Edge(t *testing.T) {
 				round+1, log.count(1, 1), log.count(4, 1), log.count(1, 2), log.count(4, 2)), map[string]interface{}{"component": "grpc", "sends": round + 1})
 		}
 	}
+	// (3) a refusal classifier whose error is itself a gRPC status (plain or wrapped) with another code: the classifier's code decides
+	for dir := 1; dir <= 2; dir++ {
+		for _, wrapped := range []bool{false, true} {
+			log := &lockedLog{}
+			refuse := &lkLimiter{id: 1, grant: false, log: log}
+			cls := func(ctx context.Context, method string, req interface{}, l core.Limiter) (interface{}, codes.Code, error) {
+				e := status.Error(codes.Internal, "inner status")
+				if wrapped {
+					e = fmt.Errorf("wrapped: %w", e)
+				}
+				return nil, codes.ResourceExhausted, e
+			}
+			var opts []gclgrpc.StreamInterceptorOption
+			if dir == 1 {
+				opts = []gclgrpc.StreamInterceptorOption{gclgrpc.WithStreamRecvLimiter(refuse), gclgrpc.WithStreamRecvLimitExceededResponseClassifier(cls)}
+			} else {
+				opts = []gclgrpc.StreamInterceptorOption{gclgrpc.WithStreamSendLimiter(refuse), gclgrpc.WithStreamSendLimitExceededResponseClassifier(cls)}
+			}
+			var got error
+			fs := &parkStream{log: log, parkRcv: make(chan chan struct{}, 1)}
+			_ = gclgrpc.StreamServerInterceptor(opts...)(nil, fs, &grpc.StreamServerInfo{FullMethod: "/s"}, func(srv interface{}, ss grpc.ServerStream) error {
+				if dir == 1 {
+					got = ss.RecvMsg("m")
+				} else {
+					got = ss.SendMsg("m")
+				}
+				return nil
+			})
+			rep.Evaluations++
+			rep.Distinct("status-error-classifier", fmt.Sprint(dir, wrapped))
+			if st, _ := status.FromError(got); got == nil || st.Code() != codes.ResourceExhausted || log.count(2, int64(dir)) != 0 {
+				rep.Violate("grpc:refusal-code", fmt.Sprintf("stream %s refused, classifier answered ResourceExhausted with an error that is a gRPC status (wrapped=%v): returned %v, underlying calls %d",
+					[]string{"", "receive", "send"}[dir], wrapped, got, log.count(2, int64(dir))), map[string]interface{}{"component": "grpc", "direction": dir, "wrapped": wrapped})
+			}
+		}
+	}
+	// (4) two stream interceptors chained on one stream (a global and a per-method limiter): every message passes both pairs of limiters
+	{
+		log := &lockedLog{}
+		o1, o2 := &lkLimiter{id: 1, grant: true, log: log}, &lkLimiter{id: 2, grant: true, log: log}
+		i1, i2 := &lkLimiter{id: 3, grant: true, log: log}, &lkLimiter{id: 4, grant: true, log: log}
+		outer := gclgrpc.StreamServerInterceptor(gclgrpc.WithStreamRecvLimiter(o1), gclgrpc.WithStreamSendLimiter(o2))
+		inner := gclgrpc.StreamServerInterceptor(gclgrpc.WithStreamRecvLimiter(i1), gclgrpc.WithStreamSendLimiter(i2))
+		fs := &parkStream{log: log, parkRcv: make(chan chan struct{}, 4)}
+		info := &grpc.StreamServerInfo{FullMethod: "/s"}
+		_ = outer(nil, fs, info, func(srv interface{}, ss grpc.ServerStream) error {
+			return inner(srv, ss, info, func(srv interface{}, ss2 grpc.ServerStream) error {
+				go func() { c := <-fs.parkRcv; close(c) }()
+				ss2.RecvMsg("m")
+				ss2.SendMsg("m")
+				ss2.SendMsg("m")
+				return nil
+			})
+		})
+		rep.Evaluations++
+		rep.Distinct("chained-interceptors", "2")
+		for id, want := range map[int64]int{1: 1, 2: 2, 3: 1, 4: 2} {
+			if log.count(1, id) != want || log.count(4, id) != want {
+				rep.Violate("grpc:chained-limiter-skipped", fmt.Sprintf("two chained stream interceptors, 1 receive and 2 sends: limiter %d (1,2 outer recv/send; 3,4 inner) was asked %d times and completed %d times, expected %d",
+					id, log.count(1, id), log.count(4, id), want), map[string]interface{}{"component": "grpc", "limiter": id})
+			}
+		}
+	}
 }
